@@ -81,6 +81,7 @@ pub mod world {
         /// Some(Some(code)) exited, Some(None) died by signal
         pub exit: Option<Option<i32>>,
         pub exit_at: u64,
+        pub spawn_at: u64,
         pub killed: bool,
         pub kill_calls: u32,
         pub reaped: bool,
@@ -659,6 +660,7 @@ pub mod world {
                     p.wclosed = true;
                 }
             }
+            let now = st.now_ms;
             st.procs.push(Proc {
                 req,
                 script,
@@ -667,6 +669,7 @@ pub mod world {
                 stdio,
                 exit: None,
                 exit_at: 0,
+                spawn_at: now,
                 killed: false,
                 kill_calls: 0,
                 reaped: false,
